@@ -193,4 +193,24 @@ PROPERTIES = {
                         "the mother is freshly initialised (no unused slots), so 'mother unchanged' is a bitwise comparison"],
         "jobs": [J("C09_division", quick={"cases": 40, "shards": 16, "max_size": 40}, thorough={"cases": 2500, "shards": 16, "max_size": 60})],
     },
+    "C13": {
+        "rule": "rapidcheck, three subs. 'reconstruct': closed polyhedra with polygonal faces (box, n-prism, bipyramid, icosphere, ellipsoid, "
+                "non-convex L-prism, triangulated variants), per-face winding none / some / all reversed, rigid placement and um..x250 scale, "
+                "l_min / diameter in [0.04, 0.16], triangulation on (4/5) or off, written to an input file and loaded through "
+                "simulation_initializer with seeded RNGs (hook H2). 'poisson': the sampling alone, pairwise spacing and on-surface "
+                "distance by brute force. 'holes': ball-pivoting hole filling driven through the bpa_tester friend on icospheres with 1-8 "
+                "removed triangles / quads. Non-trivial = a successful reconstruction / a cloud of >= 10 samples / a filled hole; distinct = hash of the case.",
+        "min_nontrivial": 30,
+        "assumptions": ["volume tolerance 0.03 + 0.6 l_max/diameter (calibrated: measured maximum 0.25 l_max/diameter), bounding box and "
+                        "node-to-surface tolerance l_max",
+                        "outcome may be an exception derived from std::exception after the bounded retries, except with the triangulation disabled on "
+                        "a triangulated closed input",
+                        "polygons are planar and convex (the non-convex L-prism is built from convex faces)"],
+        "jobs": [J("C13_reconstruct", subs=["reconstruct"], quick={"cases": 12, "shards": 12, "max_size": 40}, thorough={"cases": 600, "shards": 16, "max_size": 60},
+                   env={"VERIF_TMP": "/verif/build/run"}, threads=2),
+                 J("C13_reconstruct", subs=["poisson"], quick={"cases": 25, "shards": 2, "max_size": 40}, thorough={"cases": 500, "shards": 8, "max_size": 60},
+                   env={"VERIF_TMP": "/verif/build/run"}, threads=4),
+                 J("C13_reconstruct", subs=["holes"], quick={"cases": 400, "shards": 2, "max_size": 40}, thorough={"cases": 20000, "shards": 4, "max_size": 60},
+                   env={"VERIF_TMP": "/verif/build/run"})],
+    },
 }
